@@ -107,6 +107,10 @@ func (r *Receiver) populatePromSeriesByTag(pPreMetric *labels.Labels, promSeries
 				if row[i] == nil || (r.DropMetric && DefaultMetricKeyLabel == table.Columns[i]) {
 					continue
 				}
+				// a tag the element does not carry comes back as "" from a sub-query: no label
+				if v, ok := row[i].(string); ok && v == "" {
+					continue
+				}
 				if !metricContainsMap[table.Columns[i]] {
 					m = append(m, labels.Label{Name: table.Columns[i], Value: row[i].(string)})
 				}
@@ -184,6 +188,10 @@ func (r *Receiver) PopulatePromSeriesByHash(promSeries *[]*promql.Series, table 
 		kvs := make(map[string]string)
 		for i, col := range row {
 			if i <= SampleValueColIdx || col == nil {
+				continue
+			}
+			// a tag the element does not carry comes back as "" from a sub-query: no label
+			if v, ok := col.(string); ok && v == "" {
 				continue
 			}
 			kvs[table.Columns[i]] = col.(string)
